@@ -202,6 +202,13 @@ def run_case(case: dict) -> dict:
             e = _entity_at(w, ref.proto, (ref.x, ref.y))
             if e is not None:
                 ent_of_uid[ref.uid] = e
+        if "same-source-two-roles" in excl:
+            from .c02 import same_source_two_roles
+
+            if same_source_two_roles(stmts):
+                res["status"] = "excluded"
+                res["excluded_by"] = "same-source-two-roles"
+                return res
         if "crosstalk" in excl:
             # contents that may appear: every item / fluid the schedule uses
             for c in case["containers"]:
@@ -215,9 +222,11 @@ def run_case(case: dict) -> dict:
             allowed = [cont_types]
             for bn, ts in btypes.items():
                 allowed.append(set(gamedata.sk(t) for t in ts) if ts else cont_types)
-            if any(s[0] == "decl" and s[1] == "Bundle" and s[3][0] != "blit" or
-                   (s[0] == "decl" and s[3][0] == "blit" and any(x[0] in ("eout",) or (x[0] == "var") for x in s[3][1]))
-                   for s in stmts):
+            has_container = any("eout" in str(s) for s in stmts)
+            if not has_container:
+                allowed = [a for a in allowed if a is not cont_types] or [set()]
+            else:
+                # merges of container outputs with literal members may carry both kinds
                 allowed.append(cont_types | set().union(*[a for a in allowed]))
             sites = sites or bundle_crosstalk_sites(w, allowed)
             for c in case["containers"]:
